@@ -75,7 +75,9 @@ IPow(b_, k_) == IF k_ = 0 THEN 1 ELSE b_ * IPow(b_, k_ - 1)
 \* largest base whose k-th power still fits a 32-bit integer
 RootBound(k_) == CASE k_ = 1 -> MaxInt [] k_ = 2 -> 46340 [] k_ = 3 -> 1290
                    [] k_ = 4 -> 215 [] k_ = 5 -> 73 [] k_ = 6 -> 35 [] k_ = 7 -> 21
-                   [] k_ = 8 -> 14 [] k_ = 9 -> 10 [] k_ = 10 -> 8
+                   [] k_ = 8 -> 14 [] k_ = 9 -> 10 [] k_ = 10 -> 8 [] k_ = 11 -> 7
+                   [] k_ \in 12..13 -> 5 [] k_ \in 14..15 -> 4 [] k_ \in 16..19 -> 3
+                   [] k_ \in 20..30 -> 2 [] k_ > 30 -> 1
 RECURSIVE IRootB(_, _, _, _)
 IRootB(n_, k_, lo_, hi_) ==   \* invariant lo^k <= n < (hi+1)^k
     IF lo_ >= hi_ THEN lo_
